@@ -123,10 +123,11 @@ def names_in(e):
             and x.value.id == 'self'}
 
 
-def dep_closure(fnode, names, control=False):
+def dep_closure(fnode, names, control=False, stop=()):
     """Names that the given names depend on through assignments inside fnode
     (flow-insensitive def-use closure; comprehension variables included).
-    With control=True an assignment also depends on the tests that guard it."""
+    With control=True an assignment also depends on the tests that guard it.
+    Names in `stop` are sources: they are reported but not expanded further."""
     deps = {}
     gm = None
     if control:
@@ -160,6 +161,8 @@ def dep_closure(fnode, names, control=False):
     work = list(names)
     while work:
         x = work.pop()
+        if x in stop:
+            continue
         for y in deps.get(x, ()):
             if y not in out:
                 out.add(y)
